@@ -140,6 +140,7 @@ func ruleKA(c *Checker) {
 		c.fail("KA-2", "ping-leg", sl.Pos(), "no select of the send goroutine consumes the ping tick: pings are never sent and the pong timer is never armed")
 	}
 	resumeAllowed := map[ssa.CallInstruction]bool{}
+	var legRegions []func(*ssa.BasicBlock) bool
 	for i, leg := range pingLegs {
 		name := fmt.Sprintf("%s|ping-leg-%d", fnName(leg.fn), i+1)
 		inLeg := func(b *ssa.BasicBlock) bool { return b == leg.body || leg.body.Dominates(b) }
@@ -211,6 +212,7 @@ func ruleKA(c *Checker) {
 				}
 			}
 		}
+		legRegions = append(legRegions, inLeg)
 		var resets, resumes, pingResets []ssa.CallInstruction
 		for _, ci := range callsOnField(legFn, fPong, "Reset") {
 			if inLeg(ci.Block()) {
@@ -239,10 +241,87 @@ func ruleKA(c *Checker) {
 			}
 		}
 		leaves := leavesFn
-		c.decide(len(resumes) > 0 && !leaves(isOneOf(resumes)), "KA-2", name+"|pong armed (Resume)", instrPos(first),
-			"pongTicker.Resume() on every path through the leg", "a ping tick can be consumed without arming the pong timer: a dead peer is never timed out")
-		c.decide(len(resets) > 0 && !leaves(isOneOf(resets)), "KA-2", name+"|pong restarted (Reset)", instrPos(first),
-			"pongTicker.Reset() on every path through the leg", "the pong timer is armed without being restarted: it may fire immediately or late")
+		// the arming may be skipped on exactly one condition: the pong timer is still running for an
+		// earlier, unanswered ping (`if !pongTicker.IsActive() { Reset; Resume }`). The test block is a
+		// cut point of the path search; from its "not active" successor the arming is unconditional.
+		var activeTests []*ssa.If
+		allInstrs(legFn, func(in ssa.Instruction) {
+			iff, ok := in.(*ssa.If)
+			if !ok || !inLeg(iff.Block()) {
+				return
+			}
+			f := normFact(Fact{iff.Cond, true})
+			if call, ok := f.Cond.(*ssa.Call); ok {
+				for _, ia := range callsOnField(legFn, fPong, "IsActive") {
+					if ssa.Instruction(call) == ssa.Instruction(ia) {
+						activeTests = append(activeTests, iff)
+					}
+				}
+			}
+		})
+		notActiveSucc := func(iff *ssa.If) *ssa.BasicBlock {
+			f := normFact(Fact{iff.Cond, true})
+			if f.Val {
+				return iff.Block().Succs[1] // cond true means active: the else edge is "not active"
+			}
+			return iff.Block().Succs[0]
+		}
+		armedEverywhere := func(cs []ssa.CallInstruction) bool {
+			if len(cs) == 0 {
+				return false
+			}
+			cut := func(in ssa.Instruction) bool {
+				if isOneOf(cs)(in) {
+					return true
+				}
+				for _, t := range activeTests {
+					if in == ssa.Instruction(t) {
+						return true
+					}
+				}
+				return false
+			}
+			if leaves(cut) {
+				return false
+			}
+			for _, t := range activeTests {
+				nb := notActiveSucc(t)
+				if len(nb.Instrs) == 0 || !inLeg(nb) {
+					return false
+				}
+				if isOneOf(cs)(nb.Instrs[0]) {
+					continue
+				}
+				if pathToBlocks(nb.Instrs[0], func(b *ssa.BasicBlock) bool { return !inLeg(b) }, isOneOf(cs)) != nil {
+					return false
+				}
+			}
+			return true
+		}
+		c.decide(armedEverywhere(resumes), "KA-2", name+"|pong armed (Resume)", instrPos(first),
+			"pongTicker.Resume() on every path through the leg (unless the timer is already running)", "a ping tick can be consumed without arming the pong timer: a dead peer is never timed out")
+		c.decide(armedEverywhere(resets), "KA-2", name+"|pong restarted (Reset)", instrPos(first),
+			"pongTicker.Reset() on every path through the leg (unless the timer is already running)", "the pong timer is armed without being restarted: it may fire immediately or late")
+		// ... and a pong timer that is still running is left alone: it runs for a ping the peer has not
+		// answered (any packet from the peer pauses it), and restarting it on the next ping tick pushes
+		// its expiry out again - with a ping interval shorter than the pong timeout for ever, so that
+		// a dead peer is never detected
+		for _, rs := range resets {
+			notActive := hasFact(rs.Block(), func(f Fact) bool {
+				call, ok := f.Cond.(*ssa.Call)
+				if !ok || f.Val {
+					return false
+				}
+				for _, ia := range callsOnField(legFn, fPong, "IsActive") {
+					if ssa.Instruction(call) == ssa.Instruction(ia) {
+						return true
+					}
+				}
+				return false
+			})
+			c.decide(notActive, "KA-2", name+"|a running pong timer is not restarted", instrPos(rs), "pongTicker.Reset() only under !pongTicker.IsActive()",
+				"a ping tick restarts the pong timer although it may still be running for an unanswered ping: with a ping interval below the pong timeout the expiry is pushed out on every tick and a silent peer is never detected")
+		}
 		c.decide(len(pingResets) > 0 && !leaves(isOneOf(pingResets)), "KA-2", name+"|ping restarted", instrPos(first),
 			"pingTicker.Reset() on every path through the leg", "the ping timer is not restarted after a ping tick")
 		// Reset before Resume
@@ -368,29 +447,12 @@ func ruleKA(c *Checker) {
 		for _, m := range []string{"Reset", "ResetWithInterval"} {
 			for _, ci := range callsOnField(fn, fPing, m) {
 				okk := false
-				for r := range resumeAllowed {
-					if !resumeAllowed[r] || r.Parent() != fn {
-						continue
-					}
-					a, b := ssa.Instruction(ci), ssa.Instruction(r)
-					if instrDominates(b, a) {
-						a, b = b, a
-					} else if !instrDominates(a, b) {
-						continue
-					}
-					straight := true
-					for _, b2 := range fn.Blocks {
-						for _, in := range b2.Instrs {
-							if sel, isSel := in.(*ssa.Select); isSel && sel.Blocking && instrDominates(a, sel) && instrDominates(sel, b) {
-								straight = false
-							}
-						}
-					}
-					if straight {
+				for _, in := range legRegions {
+					if in(ci.Block()) {
 						okk = true
 					}
 				}
-				c.decide(okk, "KA-2", "pingTicker."+m+"|"+fnName(fn), instrPos(ci), "part of the arming sequence of a ping leg (next to pongTicker.Resume)",
+				c.decide(okk, "KA-2", "pingTicker."+m+"|"+fnName(fn), instrPos(ci), "inside a ping leg (the ping timer restarts itself after its own tick)",
 					"the ping timer is restarted by the sending side outside a ping leg: outbound traffic postpones the ping, so a silent peer is not probed (and not detected) while the application keeps sending")
 			}
 		}
